@@ -100,6 +100,18 @@ static void c05_gen(plan_t *p, rng_t *r, int tier) {
 			if (faulty) maybe_fault(op, r, 300, 20);
 		}
 	}
+	if (rng_chance(r, 250)) {
+		int ne = 1 + (int)rng_below(r, 3);
+		for (int j = 0; j < ne && p->nops < PLAN_MAX_OPS; j++) {
+			op_t *op = plan_add_op(p, "evt");
+			item_set(&op->it, "actor", (long long)rng_below(r, (uint64_t)actors));
+			item_set(&op->it, "pool", 0);
+			item_set(&op->it, "dst", (long long)rng_below(r, (uint64_t)n));   /* a real thread: timers on the shared virtual thread are C06's subject */
+			item_set(&op->it, "fl", rng_chance(r, 700) ? TP_F_ONESHOT : (rng_chance(r, 500) ? TP_F_DISPATCH : 0));
+			item_set(&op->it, "us", (long long)rng_range(r, 1, 3000));
+			if (p->nops > 1) { int at = (int)rng_below(r, (uint64_t)p->nops); op_t tmp = p->ops[at]; p->ops[at] = p->ops[p->nops - 1]; p->ops[p->nops - 1] = tmp; }
+		}
+	}
 	/* the queue READ fails once in a while (EINTR, or EAGAIN as when another worker emptied the shared queue first):
 	 * the reader must simply come back - nothing is lost, nothing is dropped from the event set */
 	if (faulty && rng_chance(r, 350) && p->nops > 0) {
@@ -126,6 +138,16 @@ static void c05_gen(plan_t *p, rng_t *r, int tier) {
 	item_set(&p->sched, "budget", 80000 + 40 * total_msgs);
 }
 
+#define MAX_EVT 8
+static tp_udata_t g_evt[MAX_EVT];
+static int g_nevt, g_evt_fired, g_evt_deleted[MAX_EVT];
+static void evt_cb(tp_event_p ev, tp_udata_p u) {
+	(void)ev;
+	g_evt_fired++;
+	sim_probe("c05.timer_event_fired");
+	/* a periodic one stops itself after a few rounds (once: on the virtual thread several workers serve it at a time) */
+	if (g_evt_fired > 40 && !g_evt_deleted[u - g_evt]) { g_evt_deleted[u - g_evt] = 1; tpt_ev_del_args1(TP_EV_TIMER, u); }
+}
 /* ------------------------------------------------------------------ op interpreter */
 static void c05_exec(const op_t *op, int opidx) {
 	const item_t *it = &op->it;
@@ -154,6 +176,20 @@ static void c05_exec(const op_t *op, int opidx) {
 		for (int i = 0; i < n && !sim_violated(); i++) {
 			msg_rec *m = world_new_msg(opidx, MK_PLAIN, pool, dst, (uint32_t)item_get(it, "flags", 0));
 			world_send(m, NULL);
+		}
+	} else if (0 == strcmp(it->kind, "evt")) {
+		/* the threads do not only serve messages: a one-shot (or periodic) timer on the destination thread in the
+		 * middle of the traffic. What the event does is C06's business; here it only has to leave the queue alone. */
+		int dst = (int)item_get(it, "dst", 0);
+		if (dst >= pw->n) dst = pw->n - 1;
+		if (dst < 0) dst = 0;
+		if (g_nevt < MAX_EVT && !pw->never_started[dst < 0 ? 0 : dst]) {
+			tp_udata_p u = &g_evt[g_nevt++];
+			memset(u, 0, sizeof(*u));
+			u->cb_func = evt_cb;
+			u->ident = (uintptr_t)(0x5000 + g_nevt);
+			(void)tpt_ev_add_args(dst < 0 ? pw->pvt : pw->thr[dst], TP_EV_TIMER, (uint16_t)item_get(it, "fl", TP_F_ONESHOT), TP_FF_T_USEC, (uint64_t)item_get(it, "us", 100), u);
+			sim_probe("c05.timer_event_on_a_message_thread");
 		}
 	} else if (0 == strcmp(it->kind, "junk")) {
 		int dst = (int)item_get(it, "dst", 0);
@@ -188,6 +224,7 @@ static void c05_pre(const plan_t *p) {
 	sim_knobs.pipe_size = (int)item_get(&p->cfg, "pipe", 65536);
 	sim_knobs.ncpu = 4;
 	world_op_exec = c05_exec;
+	g_nevt = 0; g_evt_fired = 0; memset(g_evt_deleted, 0, sizeof(g_evt_deleted));
 }
 
 static void *racer_main(void *arg);
@@ -261,6 +298,14 @@ static void *c05_root(void *arg) {
 		}
 		g_racers_stop = 1;
 		for (int a = 0; a < nr; a++) sim_join_fiber(racers[a]);
+		/* every worker has left its loop: what was reported as failed must not have run, not even later */
+		for (int i = 0; i < W.nmsgs && !sim_violated(); i++) {
+			msg_rec *m = &W.msgs[i];
+			if (m->race && m->sent && m->rc != 0 && m->exec_count != 0)
+				sim_violation("msg-fail-but-ran", "send during shutdown (flags %x, thread %d) returned %d, yet the callback ran %d time(s)", m->flags, m->dst, m->rc, m->exec_count);
+			if (m->race && m->exec_count > 1)
+				sim_violation("msg-duplicate", "message %d sent during shutdown ran %d times", m->id, m->exec_count);
+		}
 	}
 	return NULL;
 }
@@ -277,7 +322,7 @@ static void *racer_main(void *arg) {
 	unsigned x = (unsigned)(W.plan->seed >> 7) * 2654435761u + (unsigned)id * 97u;
 	extern void sim_fault_add(int op, const char *site, int nth, int count, int err);
 	sim_set_op(-7 - id);
-	sim_fault_add(-7 - id, "qwrite", 1 + (int)(x % 3), 100000, (x & 8) ? EPIPE : EBADF);
+	if (0 == (id & 1)) sim_fault_add(-7 - id, "qwrite", 1 + (int)(x % 3), 100000, (x & 8) ? EPIPE : EBADF);   /* the other racer's writes succeed */
 	for (int it = 0; it < 60 && !g_racers_stop && !sim_violated() && W.nmsgs < MAX_MSG - 8; it++) {
 		static const uint32_t fls[] = { TP_MSG_F_FAIL_DIRECT, TP_MSG_F_FAIL_DIRECT, TP_MSG_F_FAIL_DIRECT | TP_MSG_F_SELF_DIRECT, 0, TP_MSG_F_FAIL_DIRECT | TP_MSG_F_FORCE };
 		uint32_t fl;
